@@ -55,6 +55,35 @@ MUTANTS = [
      "1 / (2 * self.L) * (gi - gj) ** 2", "1 / (2 * self.M) * (gi - gj) ** 2 + 0.25 * (gi - gj) ** 2"),
     ("block_partition_orthogonality_corrupted", "PEPit/block_partition.py",
      "self.add_constraint(xi_decomposed[k] * xj_decomposed[l] == 0)", "self.add_constraint(xi_decomposed[k] * xj_decomposed[k] == 0)"),
+    ("nonexpansive_infimal_displacement_doubled", "PEPit/operators/nonexpansive.py",
+     "constraint = (self.v ** 2 - (xi - gi) * self.v <= 0)", "constraint = (2 * self.v ** 2 - (xi - gi) * self.v <= 0)"),
+    ("linear_operator_adjoint_sign", "PEPit/operators/linear.py",
+     "self.list_of_class_constraints.append(xi * vj == yi * uj)", "self.list_of_class_constraints.append(xi * vj == - yi * uj)"),
+    ("linear_operator_adjoint_lmi", "PEPit/operators/linear.py",
+     "T2[i, j] = (self.L ** 2) * ui * uj - vi * vj", "T2[i, j] = (self.L ** 2) / 4 * ui * uj - vi * vj"),
+    ("quadratic_value_not_halved", "PEPit/functions/smooth_strongly_convex_quadratic_function.py",
+     "constraint = (fi - fs == 0.5 * (xi - xs) * gi)", "constraint = (fi - fs == (xi - xs) * gi)"),
+    ("symmetric_linearity_factor", "PEPit/operators/symmetric_linear.py",
+     "constraint = (xi * gj == xj * gi)", "constraint = (xi * gj == 2 * xj * gi)"),
+    ("skew_symmetric_lmi_halved", "PEPit/operators/skew_symmetric_linear.py",
+     "T[i, j] = - gi * gj + (self.L ** 2) * xi * xj", "T[i, j] = - gi * gj + (self.L ** 2) / 2 * xi * xj"),
+    ("block_smooth_partial_gradient_in_linear_term", "PEPit/functions/block_smooth_convex_function.py",
+     "constraint = (fi - fj >= gj * (xi - xj) + 1", "constraint = (fi - fj >= gjk * (xi - xj) + 1"),
+    ("rsi_mu_replaced_by_L", "PEPit/functions/rsi_eb_function.py",
+     "(gi - gj) * (xi - xj) - self.mu * (xi - xj) ** 2 >= 0", "(gi - gj) * (xi - xj) - self.L * (xi - xj) ** 2 >= 0"),
+    ("support_convexity_wrong_point", "PEPit/functions/convex_support_function.py",
+     "constraint = (xj * (gi - gj) <= 0)", "constraint = (xi * (gi - gj) <= 0)"),
+    ("indicator_convexity_tightened", "PEPit/functions/convex_indicator.py",
+     "constraint = (0 >= gj * (xi - xj))", "constraint = (0 >= gj * (xi - xj) + 0.125 * (xi - xj) ** 2)"),
+    ("lipschitz_strongly_monotone_L_unsquared", "PEPit/operators/lipschitz_strongly_monotone.py",
+     "(gi - gj) ** 2 - self.L ** 2 * (xi - xj) ** 2 <= 0", "(gi - gj) ** 2 - self.L ** 2 / 2 * (xi - xj) ** 2 <= 0"),
+    ("smooth_strongly_convex_inner_1_over_mu", "PEPit/functions/smooth_strongly_convex_function.py",
+     "xi - xj - 1 / self.L * (gi - gj)) ** 2)", "xi - xj - 1 / (2 * self.L) * (gi - gj)) ** 2)"),
+    ("qg_convexity_swapped_gradient", "PEPit/functions/convex_qg_function.py",
+     "constraint = (fi - fj >= gj * (xi - xj))", "constraint = (fi - fj >= gi * (xi - xj))"),
+    ("smooth_convex_slightly_tightened", "PEPit/functions/smooth_convex_function.py",
+     "1 / (2 * self.L) * (gi - gj) ** 2", "1 / (1.75 * self.L) * (gi - gj) ** 2"),
+
 ]
 
 
